@@ -1,7 +1,7 @@
 """C10 - byte fills write exactly the requested bytes, as the little-endian word stream."""
 from . import common as C
 
-LEAN_MODULE = ["Urandom.Props.C10", "Urandom.Props.C10T", "Urandom.Props.C03T"]
+LEAN_MODULE = ["Urandom.Props.C10", "Urandom.Props.C10T", "Urandom.Props.C03T", "Urandom.Props.C01R"]
 RULE = ("requests: every generator (Xoshiro256, SplitMix64, Wyrand, ChaCha8/12/20, Mock, System<N> over the scripted entropy source) x destination lengths 0..600 (+4 KiB, + 25 fills of 64 KiB .. 128 KiB at all alignment classes) x start offsets 0..15 inside a larger arena "
         "x element types u8/u16/u32/u64/u128/[u8;3]/[u32;5] x fill_bytes / fill_bytes_uninit / random_bytes / io::Read::read / read_exact, after a random prefix of draws; "
         "each case runs twice on canary backgrounds 0x00 and 0xFF: bytes, canaries, full initialisation, reported length and the next draw are compared with the model. "
